@@ -249,6 +249,23 @@ def run_case(case, ctx):
             outcome = 'unreadable'
             bad.append({'sig': '%s:accepted-setting-unreadable-%s' % (case['dim'], 'valid' if valid else 'near-miss'),
                         'detail': 'rate %r blockshape %r accepted but the file cannot be read: %s: %s' % (r_arg, b_arg, type(e).__name__, str(e)[:200])})
+    if valid and not is2d and outcome == 'faithful' and case['spelling'] == 'full':
+        # the same setting through the SEG-Y route, on a cube with more than one block along the trace where that is affordable
+        nz = eff[1][2] + 3 if eff[1][2] <= 1024 else 7
+        D2 = gen.cube((5, 6, nz), 4)
+        sgy3 = sc.file('s3.sgy')
+        gen.make_segy(sgy3, D2, fmt=5)
+        out2 = sc.file('o2.sgz')
+        try:
+            conv.convert_segy(sgy3, out2, r_arg, b_arg, reduce_iops=bool(eff[1][1] % 8))
+            with SgzReader(out2) as r:
+                V2 = r.read_volume()
+            if V2.tobytes() != oracles.image(D2, eff[0]).tobytes():
+                outcome = 'unfaithful'
+                bad.append({'sig': '3d:accepted-setting-unfaithful-valid', 'detail': 'SEG-Y route, rate %r blockshape %r, cube %s: volume differs from codec image'
+                            % (r_arg, b_arg, D2.shape)})
+        except Exception as e:  # noqa
+            bad.append({'sig': '3d:valid-setting-rejected:other', 'detail': 'SEG-Y route, rate %r blockshape %r: %s: %s' % (r_arg, b_arg, type(e).__name__, str(e)[:200])})
     strata = ['dim:' + case['dim'], 'outcome:' + outcome, 'class:' + ('valid' if valid else 'invalid'), 'spelling:' + case['spelling']]
     if valid:
         strata.append('rate:%s' % eff[0])
